@@ -66,8 +66,8 @@ let arg_of_strs (l : n list list) : string =
 
 let run_case (fields : string list) : string =
   match fields with
-  | "rule_id" :: bits :: s :: _ ->
-    (match parse_rule_id (n_of_int (int_of_string bits)) (str_of_hex s) with
+  | "rule_id" :: _ :: s :: _ ->
+    (match parse_rule_id parse_uint_bits (str_of_hex s) with
      | None -> "ERR"
      | Some r -> String.concat "\t" ["OK"; hex_of_str r.r_id; hex_of_str r.r_file; string_of_big_n r.r_chain])
   | "find_root" :: existing :: start :: _ ->
@@ -81,6 +81,10 @@ let run_case (fields : string list) : string =
   | "scan" :: limit :: b :: _ ->
     let (ls, e) = scan (big_n_of_string limit) (str_of_hex b) in
     (if e then "TOOLONG" else "OK") ^ "\t" ^ arg_of_strs ls
+  | "renumber" :: _ :: id :: b :: _ ->
+    "OK\t" ^ hex_of_str (process_yaml max_scan_token_size (str_of_hex id) (str_of_hex b))
+  | "copyright" :: _ :: v :: y :: b :: _ ->
+    "OK\t" ^ hex_of_str (update_rules max_scan_token_size (str_of_hex v) (str_of_hex y) (str_of_hex b))
   | s :: _ -> "UNKNOWN-SUITE " ^ s
   | [] -> "EMPTY"
 
